@@ -34,6 +34,9 @@ depend on formula text.  Correspondence for them:
   * `rwo`: for every OCCURRENCE of a name that sits directly in an inlined comprehension (Python >= 3.12) the
     scopes around it up to the first one with a symbol table (own `ast` analysis) and whether the exporter rewrote
     that occurrence must agree with `MxModel.Export.shouldReplaceAt` (the climb `classify`);
+  * `rcp`: for every reference to a cells / space of every space, the form of its statement in the generated
+    `_mx_copy_refs` (plain copy of the base's object / the item's counterpart if inside the base root) must be what
+    `MxModel.Export.refCopyAction` selects for the reference's mode over the chain extracted from `ref_copies`;
   * `rsv`: for probe cells `lambda: <name>` whose name is an ItemSpace parameter named like a built-in, reached with
     some / all / none of the parametrised levels called: member, built-in or nothing on both sides as
     `MxModel.Export.exportedResolveAt` / `mxResolveAt` say (static access: the class-level `k = k` lines);
@@ -59,6 +62,7 @@ from .. import exportworld as W
 from .. import export_runner as R
 from .. import exportvals as V
 from .. import exportscope as S
+from .. import exportrefs as XR
 from ..impl import mx, close_all, quiet, err_kind
 
 
@@ -587,6 +591,54 @@ def emitted_refs(pkg_dir, path, model_name):
     return res
 
 
+def copied_refs(pkg_dir, path):
+    """{reference name: 'base' | 'inside'} read off `_mx_copy_refs` of the class generated for the space at `path`"""
+    d = pkg_dir
+    for nm in path[:-1]:
+        d = os.path.join(d, "_m_" + nm)
+    tree = ast.parse(open(os.path.join(d, "_mx_classes.py")).read())
+    res = {}
+    for node in tree.body:
+        if isinstance(node, ast.ClassDef) and node.name == "_c_" + path[-1]:
+            for fn in node.body:
+                if isinstance(fn, ast.FunctionDef) and fn.name == "_mx_copy_refs":
+                    for st in fn.body:
+                        if isinstance(st, ast.Assign) and len(st.targets) == 1 and \
+                                isinstance(st.targets[0], ast.Attribute) and \
+                                isinstance(st.targets[0].value, ast.Name) and st.targets[0].value.id == "self":
+                            k = st.targets[0].attr
+                            if isinstance(st.value, ast.IfExp) and "_mx_is_in(base_root)" in ast.unparse(st.value.test):
+                                res[k] = "inside"
+                            elif ast.unparse(st.value) == "base." + k:
+                                res[k] = "base"
+                            else:
+                                res[k] = "other"
+    return res
+
+
+def refcopy_lines(desc, m, pkg_dir):
+    """-> [(driver line, observed form, where)] for every reference to a cells / space of every static space: its
+    mode (model-level references have none) and the form of its statement in the generated `_mx_copy_refs`"""
+    from modelx.core.cells import Cells
+    from modelx.core.space import BaseSpace
+    out = []
+    for path, _sp in W.iter_spaces(desc):
+        try:
+            static = W._get(m, ".".join(path))
+            copied = copied_refs(pkg_dir, path)
+        except Exception:       # noqa: BLE001
+            continue
+        for k, v in static.refs.items():
+            if k[0] == "_" or k not in copied or not isinstance(v, (Cells, BaseSpace)):
+                continue
+            try:
+                mode = static._get_object(k, as_proxy=True).refmode
+            except Exception:       # noqa: BLE001
+                continue
+            out.append(("rcp %s" % ("none" if mode is None else mode), copied[k], "%s:%s" % (".".join(path), k)))
+    return out
+
+
 def refval_lines(desc, m, pkg_dir):
     """-> [(driver line, observed emission, where, type name)] for every reference of the model and of
     every static space"""
@@ -766,6 +818,7 @@ class Case:
         self.rwo = []
         self.look = []
         self.rsv = []
+        self.rcp = []
         self.refval = []
 
 
@@ -808,6 +861,10 @@ def prepare(case, rng, tmp, stats, fixed_queries=None):
                                         skip_spaces=set(k for k, v in case.triggers.items() if v))
         except Exception as e:      # noqa: BLE001
             stats["rwo_extraction_failed"] = stats.get("rwo_extraction_failed", 0) + 1
+        try:
+            case.rcp = refcopy_lines(desc, m, os.path.join(tmp, case.pkg))
+        except Exception as e:      # noqa: BLE001
+            stats["rcp_extraction_failed"] = stats.get("rcp_extraction_failed", 0) + 1
         try:
             case.refval = refval_lines(desc, m, os.path.join(tmp, case.pkg))
         except Exception as e:      # noqa: BLE001
@@ -927,6 +984,9 @@ def run_batch(ctx, cases, out, stats, samples, rngs=None, fixed=None):
             for line, obs, where in case.rwo:
                 driver_lines.append(line)
                 driver_meta.append(("rwo", case, obs, where))
+            for line, obs, where in case.rcp:
+                driver_lines.append(line)
+                driver_meta.append(("rcp", case, obs, where))
             for line, obs, where, tyname in case.refval:
                 driver_lines.append(line)
                 driver_meta.append(("refval", case, obs, (where, tyname)))
@@ -952,6 +1012,11 @@ def run_batch(ctx, cases, out, stats, samples, rngs=None, fixed=None):
                 elif kind == "rwo":
                     stats["rwo_decisions"] = stats.get("rwo_decisions", 0) + 1
                     stats["rwo_" + mo] = stats.get("rwo_" + mo, 0) + 1
+                    if obs != mo:
+                        out.disagree({"desc": case.desc, "line": line, "where": where}, 0, obs, mo, layer="export")
+                elif kind == "rcp":
+                    stats["rcp_decisions"] = stats.get("rcp_decisions", 0) + 1
+                    stats["rcp_" + line.split(" ")[1] + "_" + mo] = stats.get("rcp_" + line.split(" ")[1] + "_" + mo, 0) + 1
                     if obs != mo:
                         out.disagree({"desc": case.desc, "line": line, "where": where}, 0, obs, mo, layer="export")
                 elif kind == "rsv":
@@ -1148,7 +1213,7 @@ def run(ctx, out):
     samples = []
     features = {}
     profiles = {}
-    n_models = int(os.environ.get("VERIF_C15_MODELS") or 0) or ctx.n(58, 1500)
+    n_models = int(os.environ.get("VERIF_C15_MODELS") or 0) or ctx.n(48, 1500)
     batch = 12
     idx = 0
     tasks = []          # (phase, (ctx, cases, rngs, fixed))
@@ -1180,11 +1245,19 @@ def run(ctx, out):
     # thorough tier), plus a seed-dependent tail of random scope expressions
     scope_formulas = 0
     if not os.environ.get("VERIF_C15_NO_SCOPE"):
-        fam = S.family(ctx.rng("scope"), n_random=ctx.n(17, 510), per_template=ctx.n(3, None), rotation=ctx.seed)
+        fam = S.family(ctx.rng("scope"), n_random=ctx.n(17, 510), per_template=ctx.n(2, None), rotation=ctx.seed)
         for label, d, qs in fam:
             d = dict(d, name="S%d" % idx)
             scope_formulas += len(qs)
             tasks.append(("scope", (ctx, [Case(idx, d, "scope/" + label)], None, [qs])))
+            idx += 1
+    # object-valued references at every position relative to the reading formula's item (model level: no mode;
+    # space level: one mode per quick run, all in the thorough tier)
+    if not os.environ.get("VERIF_C15_NO_OBJREFS"):
+        modes = XR.MODES if ctx.tier != "quick" else (XR.MODES[ctx.seed % 3],)
+        for label, d, qs in XR.family(modes=modes):
+            d = dict(d, name="R%d" % idx)
+            tasks.append(("objrefs", (ctx, [Case(idx, d, "objrefs/" + label)], None, [qs])))
             idx += 1
     programs = set()
     skipped_trigger = 0
@@ -1241,6 +1314,9 @@ def run(ctx, out):
                          "values_compared": per_phase.get("scope", {}).get("compared", 0),
                          "model_raises_not_compared": per_phase.get("scope", {}).get("model_raises", 0),
                          "templates": len(S.TEMPLATES), "contexts": len(S.CONTEXTS), "name_kinds": S.N_KINDS},
+        "objref_family": {"values_compared": per_phase.get("objrefs", {}).get("compared", 0),
+                          "model_raises_not_compared": per_phase.get("objrefs", {}).get("model_raises", 0),
+                          "targets": len(XR.TARGETS), "modes": list(XR.MODES)},
         "worker_processes": min(n_jobs(), len(tasks)),
         "value_kinds": [k.id for k in V.KINDS],
         "input_distribution": {"profiles": profiles, "features": features, "counters": stats,
